@@ -329,6 +329,59 @@ fn binstr_ok(n: usize) {
     core::mem::forget(out);
 }
 
+/// io::Read double that stands for "a source with `avail` more bytes": it hands out byte COUNTS
+/// only (the destination buffer is left as it is), so lengths far beyond what CBMC could copy can
+/// be explored. The first four bytes it delivers are the little-endian length prefix.
+struct CountingSource {
+    prefix: [u8; 4],
+    avail: u64,
+    consumed: u64,
+}
+impl Read for CountingSource {
+    fn read(&mut self, buf: &mut [u8]) -> io::Result<usize> {
+        let left = self.avail - self.consumed;
+        let n = if (buf.len() as u64) < left { buf.len() } else { left as usize };
+        if self.consumed < 4 {
+            // only ever called with a 4-byte buffer here (read_exact of the prefix)
+            let mut i = 0;
+            while i < n && i < 4 {
+                buf[i] = self.prefix[i];
+                i += 1;
+            }
+        }
+        self.consumed += n as u64;
+        Ok(n)
+    }
+}
+
+//@ obligation: U1.binstr.len
+//@ props: C01 C04 C13
+//@ fns: RbxReadExt::read_binary_string
+//@ kind: bounded
+//@ bound: declared length <= 48 KiB (every value), source holds at least that many bytes; std's read_to_end doubles its read size per iteration, so the unwind bound caps the length
+//@ covers: 2
+//@ checks: functional
+//@ timeout: 1200
+//@ note: for every declared length up to 48 KiB and a source that holds at least that many bytes: exactly 4 + length bytes are consumed and the returned buffer has exactly `length` bytes; a source that ends early is an error or a shorter buffer, never a panic. Byte contents are covered by U1.binstr (3 bytes); this obligation pushes the length bound from 3 bytes to 48 KiB using a source double that hands out byte counts only.
+#[kani::proof]
+#[kani::unwind(6)]
+fn u1_binstr_len() {
+    let length: u32 = kani::any();
+    kani::assume(length <= 49152);
+    let extra: u32 = kani::any();
+    let src = CountingSource { prefix: length.to_le_bytes(), avail: 4 + length as u64 + extra as u64, consumed: 0 };
+    let mut src = src;
+    let r = (&mut src).read_binary_string();
+    assert!(r.is_ok());
+    if let Ok(v) = &r {
+        assert!(v.len() == length as usize);
+        assert!(src.consumed == 4 + length as u64);
+    }
+    kani::cover!(length > 40000, "a length above 40000 is reachable");
+    kani::cover!(length == 0, "the empty string is reachable");
+    core::mem::forget(r);
+}
+
 // ---------------------------------------------------------------- U2 interleaving on the whole real methods
 // docs/binary.md "Byte interleaving": for an array of len values of N bytes, byte j of
 // value i is stored at offset i + len*j.
